@@ -47,7 +47,10 @@ UNIT = 2.0 ** -10
 
 
 def ctors_for(kind):
-    return ["Sigma"] if kind == "nncontrol" else (["Sigma", "Lambda", "all"] if kind.startswith("identity") else ["Sigma", "Lambda", "all", "b_none"])
+    return ["Sigma"] if kind == "nncontrol" else (["Sigma", "Lambda", "SigmaLambda", "all"] if kind.startswith("identity") else ["Sigma", "Lambda", "SigmaLambda", "all", "b_none"])
+
+
+PX_MODE = {"SigmaLambda": "Sigma+Lambda", "all": "Sigma+Lambda+lndet"}  # the prior is built through the matching constructor variant
 
 
 def build_case(shard, vi, seed, ctor="Sigma", prep="fresh"):
@@ -68,6 +71,10 @@ def build_case(shard, vi, seed, ctor="Sigma", prep="fresh"):
         # so any absolute constant inside the library shows up at ~1e-4 relative
         u = UNIT
         b, Sy, mx, Sx = b * u, Sy * u * u, mx * u, Sx * u * u
+    if prep == "tight_prior":
+        # a prior a million times tighter than the observation noise (every matrix keeps its condition number): gains of
+        # size 1e-6 must come out with relative, not absolute, accuracy for the round trips to close
+        Sx = Sx * 2.0 ** -20
     if prep == "sliced" and kind != "nncontrol":
         # the operands are reached from elsewhere: a larger batch sliced with NEGATIVE indices
         M2 = np.concatenate([M[:1] * -0.5 + 1.0, M], axis=0)
@@ -112,7 +119,7 @@ def build_case(shard, vi, seed, ctor="Sigma", prep="fresh"):
         p_x.integrate("xx'")  # and the prior has been queried before
         return cond, kw, p_x, (Me, be, Sy, mx, Sx)
     cond, kw, (Me, be, Sye) = objs.mk_cond(kind, M, b, Sy, ctor=ctor)
-    p_x = objs.mk_pdf(px_kind, Sx, mx)
+    p_x = objs.mk_pdf(px_kind, Sx, mx, mode=PX_MODE.get(ctor, "Sigma"))
     return cond, kw, p_x, (Me, be, Sye, mx, Sx)
 
 
@@ -137,7 +144,9 @@ def run(shard, ctx, which):
           if kind == "nncontrol":
               preps = ("fresh", "updated", "replaced") if vi in (0, 100) else ("fresh",)
           elif ctor in ("Sigma", "b_none") and vi in (0, 100):
-              preps = ("fresh", "sliced", "updated") + (("replaced",) if (kind in ("full", "diag") and ctor == "Sigma") else ()) + (("units",) if ctor in ("Sigma", "Lambda") else ())
+              preps = ("fresh", "sliced", "updated") + (("replaced",) if (kind in ("full", "diag") and ctor == "Sigma") else ()) + (("units",) if ctor in ("Sigma", "Lambda") else ()) + (("tight_prior",) if ctor == "Sigma" else ())
+          elif vi == objs.HARD and ctor == "Sigma":
+              preps = ("fresh", "tight_prior")  # strongly correlated AND a million times tighter than the noise
           else:
               preps = ("fresh",)
           for prep in preps:
@@ -270,6 +279,14 @@ def check_marginal(ctx, cond, kw, p_x, M, b, Sy, mx, Sx, x, y, Rc, Rx):
                     if resid > 1e-7 * max(1.0, np.max(np.abs(vals))):
                         ctx.fail("marginal.integrand_not_quadratic", "value", value=resid)
                     integ[comp(rc, rx, Rx), n] = rm.ln_integral(Lam, nu, c)
+                    if rm.identification_noise(vals, Lam, nu) > 1e-9 * max(1.0, abs(integ[comp(rc, rx, Rx), n])):
+                        # mode far from the origin / very narrow integrand: re-probe around the estimated mode (second stage)
+                        def f_row(Pm, rc=rc, rx=rx, n=n):
+                            cxm = cond.condition_on_x_u(J(Pm), kw["u"]) if "u" in kw else cond.condition_on_x(J(Pm))
+                            a_ = np.asarray(cxm.evaluate_ln(J(y[n:n + 1])))[rc * len(Pm):(rc + 1) * len(Pm), 0]
+                            return a_ + np.asarray(p_x.evaluate_ln(J(Pm)))[rx]
+                        integ[comp(rc, rx, Rx), n], _ = rm.ln_integral_recentred(f_row, Dx, Lam, nu)
+                        ctx.count("integral_oracle_recentred")
         ctx.close("marginal.integral_identity", got, integ, tol=1e-7)
     # equals the y-marginal of the joint transformation (library-level identity)
     with ctx.guard("marginal.vs_joint_marginal"):
